@@ -2,6 +2,7 @@ package main
 
 import (
 	"github.com/ipfs/go-cid"
+	mbase "github.com/multiformats/go-multibase"
 	mh "github.com/multiformats/go-multihash"
 )
 
@@ -108,13 +109,73 @@ func fvals(as ...Arch) VL {
 	return l
 }
 
-func c19GenSel(r *RNG, a Arch, other Arch) VL {
-	sel := VL{}
+// c19CidList renders a CID selection as the text `car filter` reads (parseCIDS): one CID per line in
+// one of the text forms cid.Parse accepts, optional white space around it, LF or CRLF line ends, blank
+// lines, repeated lines, and -- half of the time -- no terminator after the last line; fed through
+// --cid-file or stdin.  Value: (text, cid.Parse table, mode, intended CIDs).
+func c19CidList(c *Ctx, r *RNG, cids []cid.Cid) VL {
+	var text []byte
+	table := VL{}
+	intended := VL{}
+	ws := []string{"", "", "", " ", "\t", "  ", " \t"}
+	blank := func() {
+		text = append(text, pick(r, []string{"\n", "\r\n", "  \n", "\t\r\n"})...)
+		c.Count("cidlist:blank-line")
+	}
+	lines := append([]cid.Cid(nil), cids...)
+	if len(cids) > 0 && r.Chance(20) {
+		lines = append(lines, pick(r, cids)) // a repeated CID ("duplicate cid" warning)
+		c.Count("cidlist:repeated-line")
+	}
+	if r.Chance(15) {
+		blank()
+	}
+	for i, k := range lines {
+		var t string
+		switch {
+		case r.Chance(15):
+			t = "/ipfs/" + k.String()
+			c.Count("cidlist:ipfs-path-form")
+		case k.Version() == 1 && r.Chance(20):
+			t, _ = k.StringOfBase(pick(r, []mbase.Encoding{mbase.Base58BTC, mbase.Base16, mbase.Base64url, mbase.Base32Upper}))
+			c.Count("cidlist:other-multibase")
+		default:
+			t = k.String()
+		}
+		table = append(table, VL{VB([]byte(t)), VB(k.Bytes())})
+		text = append(text, pick(r, ws)...)
+		text = append(text, t...)
+		text = append(text, pick(r, ws)...)
+		last := i == len(lines)-1
+		switch {
+		case last && r.Chance(50):
+			c.Count("cidlist:last-line-unterminated")
+		case r.Chance(25):
+			text = append(text, "\r\n"...)
+			c.Count("cidlist:crlf")
+		default:
+			text = append(text, '\n')
+		}
+		if !last && r.Chance(10) {
+			blank()
+		}
+	}
+	if len(lines) > 0 && r.Chance(10) {
+		blank() // trailing blank lines
+	}
+	for _, k := range cids {
+		intended = append(intended, VB(k.Bytes()))
+	}
+	return VL{VB(text), table, VN(uint64(r.Intn(2))), intended}
+}
+
+func c19GenSel(c *Ctx, r *RNG, a Arch, other Arch) VL {
+	var sel []cid.Cid
 	seen := map[string]bool{}
 	add := func(c cid.Cid) {
 		if !seen[string(c.Bytes())] {
 			seen[string(c.Bytes())] = true
-			sel = append(sel, VB(c.Bytes()))
+			sel = append(sel, c)
 		}
 	}
 	for _, b := range a.blks {
@@ -130,7 +191,7 @@ func c19GenSel(r *RNG, a Arch, other Arch) VL {
 	if r.Chance(30) && len(other.blks) > 0 {
 		add(pick(r, other.blks).Cid) // usually absent from a
 	}
-	return sel
+	return c19CidList(c, r, sel)
 }
 
 func c19Archive(c *Ctx, r *RNG, a, b, d Arch) {
@@ -192,22 +253,34 @@ func c19Archive(c *Ctx, r *RNG, a, b, d Arch) {
 	emitCli(c, "getblock", VL{VB(genBlock(r, genOpts{maxData: 16}).Cid.Bytes())}, one, ex, nt)
 	// car filter
 	none := VT("none")
-	emitCli(c, "filter", VL{c19GenSel(r, a, b), VN(0), VN(2), VN(0)}, VL{VB(a.file), none}, ex, nt)
-	emitCli(c, "filter", VL{c19GenSel(r, a, b), VN(0), VN(1), VN(0)}, VL{VB(a.file), none}, ex, nt)
-	emitCli(c, "filter", VL{c19GenSel(r, a, b), VN(1), VN(uint64(1 + r.Intn(2))), VN(0)}, VL{VB(a.file), VB(b.file)}, ex, nt)
+	emitCli(c, "filter", VL{c19GenSel(c, r, a, b), VN(0), VN(2), VN(0)}, VL{VB(a.file), none}, ex, nt)
+	emitCli(c, "filter", VL{c19GenSel(c, r, a, b), VN(0), VN(1), VN(0)}, VL{VB(a.file), none}, ex, nt)
+	emitCli(c, "filter", VL{c19GenSel(c, r, a, b), VN(1), VN(uint64(1 + r.Intn(2))), VN(0)}, VL{VB(a.file), VB(b.file)}, ex, nt)
 	if r.Chance(10) {
-		emitCli(c, "filter", VL{c19GenSel(r, a, b), VN(0), VN(3), VN(0)}, VL{VB(a.file), none}, VL{}, false)
+		emitCli(c, "filter", VL{c19GenSel(c, r, a, b), VN(0), VN(3), VN(0)}, VL{VB(a.file), none}, VL{}, false)
+	}
+	if r.Chance(12) {
+		// a line cid.Parse refuses: the command stops before the output is touched
+		cl := c19GenSel(c, r, a, b)
+		bad := pick(r, []string{"not-a-cid", "bafy", "Qm0000", "/ipfs/"})
+		txt := append([]byte(bad+pick(r, []string{"\n", "\r\n", ""})), []byte(cl[0].(VB))...)
+		if r.Bool() {
+			txt = append(append([]byte(cl[0].(VB)), '\n'), bad...)
+		}
+		cl[0] = VB(txt)
+		emitCli(c, "filter", VL{cl, VN(uint64(r.Intn(2))), VN(2), VN(0)}, VL{VB(a.file), VB(b.file)}, VL{}, false)
+		c.Count("cidlist:unparsable-line")
 	}
 	// --append onto an existing archive b (resumable only when b is a CARv2 without data padding)
 	if b.ver == 2 && b.dpad == 0 {
-		emitCli(c, "filter", VL{c19GenSel(r, a, d), VN(uint64(r.Intn(2))), VN(2), VN(1)}, VL{VB(a.file), VB(b.file)}, VL{a.desc(), b.desc()}, nt)
+		emitCli(c, "filter", VL{c19GenSel(c, r, a, d), VN(uint64(r.Intn(2))), VN(2), VN(1)}, VL{VB(a.file), VB(b.file)}, VL{a.desc(), b.desc()}, nt)
 		c.Count("flags:filter-append-resumable")
 	} else if r.Chance(50) {
-		emitCli(c, "filter", VL{c19GenSel(r, a, d), VN(0), VN(2), VN(1)}, VL{VB(a.file), VB(b.file)}, VL{}, false)
+		emitCli(c, "filter", VL{c19GenSel(c, r, a, d), VN(0), VN(2), VN(1)}, VL{VB(a.file), VB(b.file)}, VL{}, false)
 		c.Count("flags:filter-append-refused")
 	}
 	if r.Chance(10) {
-		emitCli(c, "filter", VL{c19GenSel(r, a, d), VN(0), VN(uint64(1 + r.Intn(2))), VN(1)}, VL{VB(a.file), none}, VL{}, false)
+		emitCli(c, "filter", VL{c19GenSel(c, r, a, d), VN(0), VN(uint64(1 + r.Intn(2))), VN(1)}, VL{VB(a.file), none}, VL{}, false)
 	}
 	// car concat
 	concat := func(ver uint64, as ...Arch) {
@@ -282,7 +355,7 @@ func c19Malformed(c *Ctx, r *RNG, a Arch) {
 	emitCli(c, "index", VL{VN(1), VN(2)}, files, VL{}, false)
 	emitCli(c, "indexcreate", VL{VN(0)}, files, VL{}, false)
 	emitCli(c, "getblock", VL{VB(pick(r, a.blks).Cid.Bytes())}, files, VL{}, false)
-	emitCli(c, "filter", VL{c19GenSel(r, a, a), VN(0), VN(2), VN(0)}, VL{VB(f), VT("none")}, VL{}, false)
+	emitCli(c, "filter", VL{c19GenSel(c, r, a, a), VN(0), VN(2), VN(0)}, VL{VB(f), VT("none")}, VL{}, false)
 	emitCli(c, "concat", VL{VN(1)}, VL{VB(f), VB(a.file)}, VL{}, false)
 }
 
